@@ -5,6 +5,7 @@ CHECK_DEADLOCK FALSE
 CONSTANTS
  HonorsHost = TRUE
  SchemeBound = TRUE
+ PgNoMirrors = TRUE
  FoldCase = TRUE
  StripOnRedirect = TRUE
  MaxFaults = 3
